@@ -40,7 +40,7 @@ class SubFamily:
         mode = rng.choice(['quiescent', 'quiescent', 'inline'])
         sc = {'id': '', 'family': 'sub', 'sched': rt['flavor'] + '-' + mode, 'seed': rng.randrange(1 << 30), 'runtime': rt, 'engine': {'store': 'mem', 'keep_processes': True}, 'models': [json.dumps(m) for m in models],
               'responder': {'mode': mode, 'order': rng.choice(['fifo', 'lifo', 'seeded']), 'rules': rules},
-              'ops': [{'op': 'start', 'mid': 'm0', 'vars': {'pid': 'p0'}}, {'op': 'run', 'snap': 'live'}, {'op': 'snapshot', 'level': 'live'}]}
+              'ops': [{'op': 'start', 'mid': 'm0', 'vars': {'pid': 'p0'}}, {'op': 'run', 'snap': opts.get('snap', 'live')}, {'op': 'snapshot', 'level': opts.get('snap', 'live')}]}
         return {'scenarios': [sc], 'meta': {'depth': depth, 'missing': missing, 'ending': ending, 'tag': tag, 'par': par}, 'digest': digest([depth, missing, ending, par, rt, mode, rules]), 'nontrivial': True}
 
     def judge(self, c, opts, obs):
